@@ -74,10 +74,11 @@ Definition derive_thaws : bool := false.
 (* /repo since 6df133a: Collection.__setitem__ transfers the id only to a freshly built object, never to an
    object handed in by the caller (the pinned code wrote it into any assigned object: true) *)
 Definition setitem_transfers : bool := false.
-(* the three proposed repairs of the remaining findings: not applied to /repo (flip to true when they are) *)
-Definition delattr_guarded : bool := false.
-Definition tuples_frozen : bool := false.
-Definition cache_counts_modifications : bool := false.
+(* /repo since 6ba0708 (delattr / Collection.remove guarded), b49160e (TuplePrior frozen with its model), 29fc8b9
+   (frozen caches dropped once any model was modified); the pinned code: false, false, false *)
+Definition delattr_guarded : bool := true.
+Definition tuples_frozen : bool := true.
+Definition cache_counts_modifications : bool := true.
 
 Definition FUEL : nat := 12.
 
